@@ -103,7 +103,7 @@ def run(h: Harness):
             continue
         h.count("refined-grammar" if refined else "unrefined-grammar")
         line_spec = gram.spec_sx(spec)
-        d = mind + rng.choice([0, 1, 2])
+        d = mind + rng.choice([1, 2, 3, 4])
         kind = rng.choice(["grow", "full", "pigrow"])
         seedv = rng.randrange(10**6)
 
